@@ -125,13 +125,19 @@ func init() {
 		r := newRand(2020)
 		wrap := len(a) > 2 && a[2] == "wrap"
 		missed := 0
-		for gi, k := range keys {
+		// every simulator exists before the first frame is generated (a fleet of simulated terminals in one process): each one
+		// generates frames with its own phone whatever was constructed after it
+		sims := map[gk]*terminal.Terminal{}
+		for _, k := range keys {
 			ph := ""
 			for _, d := range []byte(k.phone) {
 				ph += string(rune('0' + d))
 			}
+			sims[k] = terminal.New(terminal.WithHeader(consts.ProtocolVersionType(k.ver), ph))
+		}
+		for gi, k := range keys {
 			ver := consts.ProtocolVersionType(k.ver)
-			sim := terminal.New(terminal.WithHeader(ver, ph))
+			sim := sims[k]
 			cmdsOf := groups[k]
 			sort.Ints(cmdsOf)
 			// one live connection per terminal
@@ -199,6 +205,58 @@ func init() {
 			for i := 0; i < 4; i++ {
 				body := randBody(r, gi*4+i)
 				emit([]int{0x0002, 0x0200, 0x0900, 0x0704}[i], sim.CreateCommandData(consts.JT808CommandType([]int{0x0002, 0x0200, 0x0900, 0x0704}[i]), body), "custom")
+			}
+			// pipelined: frames sent without waiting for their replies, each in its own segment, while the server's writer lags behind
+			// its reader (a slow write callback): the i-th reply is still the reply to the i-th frame
+			if missed < 2 {
+				var pf [][]byte
+				var pc []int
+				for len(pf) < 12 {
+					before := len(pf)
+					for _, cmd := range cmdsOf {
+						if !replyBearing[cmd] {
+							continue
+						}
+						if f := sim.CreateDefaultCommandData(consts.JT808CommandType(cmd)); f != nil {
+							pf, pc = append(pf, f), append(pc, cmd)
+						}
+					}
+					if len(pf) == before {
+						break
+					}
+				}
+				for len(t.recvCh) > 0 {
+					<-t.recvCh
+				}
+				tt := t
+				hold := func(c int) {
+					if c == tt.idx {
+						time.Sleep(700 * time.Microsecond)
+					}
+				}
+				l.writeHold.Store(&hold)
+				before := t.nrecv.Load()
+				for _, f := range pf {
+					t.send(f)
+					time.Sleep(250 * time.Microsecond)
+				}
+				t.waitRecv(before+int64(len(pf)), 8*time.Second)
+				l.writeHold.Store(nil)
+				for i, f := range pf {
+					idx++
+					e := c20Event{Ver: k.ver, Phone: B(k.phone), Cmd: pc[i], Idx: idx, Frame: f, Kind: "pipelined", Pred: B{}, Live: B{}, PrevSame: true, HasLive: true, LivePser: livePser}
+					if dv, m := decodeView(f); dv.Ok {
+						e.BodyOk, e.BodyNote = bodyRoundTrip(pc[i], ver, m.Body)
+					}
+					select {
+					case fr := <-t.recvCh:
+						e.Live = fr
+					default:
+						missed++
+					}
+					livePser = (livePser + 1) % 65536
+					out.put(e)
+				}
 			}
 			if wrap && gi == 0 { // serial wrap: 65540 consecutive frames
 				for i := 0; i < 65540; i++ {
